@@ -9,14 +9,20 @@ import (
 	"errors"
 	"fmt"
 	"io"
+	"os"
 	"regexp"
 	"runtime"
+	"sort"
 	"strings"
+	"time"
 
 	"polysim/kernel"
 )
 
 // errInjected is the I/O error the simulated stream returns at a planned byte offset.
+// noMin (development aid): WIRE_NOMIN=1 skips plan minimisation when timing batches on a tree with known violations.
+var noMin = os.Getenv("WIRE_NOMIN") != ""
+
 var errInjected = errors.New("polysim: injected I/O error")
 
 // faultReader is the simulated byte stream. It delivers data in chunks of 1..maxChunk bytes
@@ -147,7 +153,7 @@ func dangerous(count uint64) bool { return count > dangerLo && count < dangerHi 
 var boundaryLens = []uint64{0, 1, 0xFC, 0xFD, 0xFE, 0xFF, 0x100, 0xFFFF, 0x10000, 0xFFFFFFFF, 0x100000000, 1 << 46, 1 << 56, 1 << 63, ^uint64(0)}
 
 // hugeCounts are count values that are safe to feed to a decoder that pre-allocates.
-var safeCorruptCounts = []uint64{0, 1, 2, 0xFC, 0xFD, 0xFF, 0x100, 0xFFFF, 0x10000, 1 << 46, 1 << 48, 1 << 56, 1<<63 - 1, 1 << 63, ^uint64(0)}
+var safeCorruptCounts = []uint64{0, 1, 0xFD, 0xFFFF, 0x10000, 1 << 46, 1 << 56, 1 << 63, ^uint64(0)}
 
 func dsha(b []byte) [32]byte {
 	t := sha256.Sum256(b)
@@ -346,3 +352,39 @@ func amod(a int64, n int) int {
 	}
 	return int(a % int64(n))
 }
+
+// modeTimer (development aid): WIRE_TIMING=1 prints the wall time spent per fault mode on stderr
+// at the end of every run. Never used for any decision and never logged into the trace.
+type modeTimer struct {
+	d map[string]time.Duration
+	n map[string]int
+}
+
+var timing = os.Getenv("WIRE_TIMING") != ""
+
+func (m *modeTimer) add(mode string, t0 time.Time) {
+	if !timing {
+		return
+	}
+	if m.d == nil {
+		m.d, m.n = map[string]time.Duration{}, map[string]int{}
+	}
+	m.d[mode] += time.Since(t0)
+	m.n[mode]++
+}
+
+func (m *modeTimer) report(id string) {
+	if !timing || m.d == nil {
+		return
+	}
+	var ks []string
+	for k := range m.d {
+		ks = append(ks, k)
+	}
+	sort.Strings(ks)
+	for _, k := range ks {
+		fmt.Fprintf(os.Stderr, "TIMING %s %-34s n=%d total=%v avg=%v\n", id, k, m.n[k], m.d[k], m.d[k]/time.Duration(m.n[k]))
+	}
+}
+
+var globalTimer modeTimer
